@@ -3,7 +3,8 @@ import HyperModel.Model.Builder
 /-!
 Driver for C02. Line protocol:
 
-* `build <nkeys> <prices> <max> <target> <txsSizeCap> <parentHeight>`  → `ok`
+* `build <nkeys> <prices> <max> <target> <txsSizeCap> <parentHeight> <minEmptyBlockGap>`  → `ok`
+     (the parent is 5000 ms older than the build on both sides)
 * `parent <k>=<v> ...`                                                   → `ok`
 * `mtx <id> <sponsor> <pre> <units> <keys> <prog> <size> <dup 0|1>`      mempool entry, stream order → `ok`
 * `run 1 <id,id,...|->`   build with one core; the list is the observed processing order
@@ -20,6 +21,7 @@ structure St where
   target : Dims := []
   cap : Nat := 0
   parentHeight : Nat := 0
+  minEmptyGap : Nat := 750
   parent : List (Nat × Nat) := []
   mtxs : List MTx := []
 
@@ -31,7 +33,7 @@ def ctxOf (s : St) : BCtx :=
   { parent := fun k => if k = hkK then some s.parentHeight else if k = tkK then some 1000
       else if k = fkK then some 0 else s.parent.lookup k
     prices := s.prices, maxUnits := s.maxUnits, targetUnits := s.target, targetTxsSize := s.cap,
-    minBlockGap := 100, minEmptyBlockGap := 750, parentHeight := s.parentHeight, parentTs := 1000,
+    minBlockGap := 100, minEmptyBlockGap := s.minEmptyGap, parentHeight := s.parentHeight, parentTs := 1000,
     parentFee := 0, now := 6000, hk := hkK, tk := tkK, fk := fkK, feeEnc := fun _ _ _ => 1 }
 
 def chunksAux (n : Nat) : Nat → List MTx → List (List MTx)
@@ -52,11 +54,12 @@ def showIds (l : List Nat) : String :=
 
 def step (s : St) (ws : List String) : St × String :=
   match ws with
-  | ["build", n, p, m, t, cap, ph] =>
-    match n.toNat?, parseNats "," p, parseNats "," m, parseNats "," t, cap.toNat?, ph.toNat? with
-    | some n, some p, some m, some t, some cap, some ph =>
-      ({ nkeys := n, prices := p, maxUnits := m, target := t, cap := cap, parentHeight := ph }, "ok")
-    | _, _, _, _, _, _ => (s, "bad-op")
+  | ["build", n, p, m, t, cap, ph, mg] =>
+    match n.toNat?, parseNats "," p, parseNats "," m, parseNats "," t, cap.toNat?, ph.toNat?, mg.toNat? with
+    | some n, some p, some m, some t, some cap, some ph, some mg =>
+      if mg < 100 || (mg > 3000 && mg < 30000) then (s, "bad-op") else
+      ({ nkeys := n, prices := p, maxUnits := m, target := t, cap := cap, parentHeight := ph, minEmptyGap := mg }, "ok")
+    | _, _, _, _, _, _, _ => (s, "bad-op")
   | "parent" :: kvs =>
     match allSome (kvs.map (parseKV "=")) with
     | some l => ({ s with parent := l }, "ok")
